@@ -873,6 +873,121 @@ pub fn conc_trees() -> Vec<RefTree> {
 }
 
 /// `harness conc <what> --seed S --tier T --out DIR`
+/// Two threads, released together, each take a child of the same never-visited node (the same child in even rounds, different
+/// ones in odd rounds), then the main thread asks again: all handles to one position must be equal (`==` is identity of the red
+/// element) and nothing may panic.
+fn free_descent_stress(rounds: usize) -> (Option<String>, Vec<(String, u64)>) {
+    use std::sync::atomic::AtomicUsize;
+    let tree = RefTree::Node(0, vec![
+        RefTree::Node(1, vec![RefTree::Tok(2, "a".into())]),
+        RefTree::Tok(2, "b".into()),
+        RefTree::Node(1, vec![RefTree::Tok(2, "c".into()), RefTree::Node(1, vec![])]),
+    ]);
+    let green = build_green(&tree);
+    let mut done = 0u64;
+    for r in 0..rounds {
+        let root: Node = SyntaxNode::new_root(green.clone());
+        let gate = AtomicUsize::new(0);
+        let pick = |t: usize| if r % 2 == 0 { 2 } else { t * 2 };
+        let res = std::thread::scope(|s| {
+            let hs: Vec<_> = (0..2usize)
+                .map(|t| {
+                    let root = &root;
+                    let gate = &gate;
+                    s.spawn(move || {
+                        gate.fetch_add(1, Ordering::SeqCst);
+                        while gate.load(Ordering::SeqCst) < 2 {
+                            std::hint::spin_loop();
+                        }
+                        catch(std::panic::AssertUnwindSafe(|| root.children_with_tokens().nth(pick(t)).map(|e| to_owned(e))))
+                    })
+                })
+                .collect();
+            hs.into_iter().map(|h| h.join().unwrap()).collect::<Vec<_>>()
+        });
+        done += 1;
+        for (t, got) in res.iter().enumerate() {
+            match got {
+                Err(m) => return (Some(format!("round {}: thread {} panicked while taking child {} of a fresh node: {}", r, t, pick(t), m)), vec![("free_descent_rounds".into(), done)]),
+                Ok(None) => return (Some(format!("round {}: thread {} found no child {}", r, t, pick(t))), vec![("free_descent_rounds".into(), done)]),
+                Ok(Some(e)) => {
+                    let again = root.children_with_tokens().nth(pick(t)).map(|e| to_owned(e));
+                    if again.as_ref() != Some(e) {
+                        return (Some(format!("round {}: the handle thread {} was given for child {} is not the element a later request finds there (two red elements for one position)", r, t, pick(t))), vec![("free_descent_rounds".into(), done)]);
+                    }
+                }
+            }
+        }
+        if r % 2 == 0 {
+            if let (Ok(Some(a)), Ok(Some(b))) = (&res[0], &res[1]) {
+                if a != b {
+                    return (Some(format!("round {}: two threads asking for the same child at the same moment hold different red elements", r)), vec![("free_descent_rounds".into(), done)]);
+                }
+            }
+        }
+    }
+    (None, vec![("free_descent_rounds".into(), done)])
+}
+
+/// Four threads clone the only handle of a fresh tree through `&root` at the same moment and hand their clones back.  The root
+/// carries a payload that counts its drops: the tree may be torn down only when the last of the five handles goes -- the payload
+/// must still be alive after each of the first four drops and must have been dropped exactly once after the fifth.  On a violation
+/// the handles that are left are leaked instead of dropped (they may point into freed memory).
+fn free_clone_stress(rounds: usize) -> (Option<String>, Vec<(String, u64)>) {
+    use std::sync::atomic::AtomicUsize;
+    let tree = RefTree::Node(0, vec![RefTree::Tok(2, "a".into()), RefTree::Node(1, vec![RefTree::Tok(2, "b".into())])]);
+    let green = build_green(&tree);
+    let mut first: Option<String> = None;
+    let mut done = 0u64;
+    for r in 0..rounds {
+        let root: Node = SyntaxNode::new_root(green.clone());
+        let before = NEXT_PAYLOAD.load(Ordering::SeqCst) as usize;
+        root.set_data(Payload::new(7));
+        let gate = AtomicUsize::new(0);
+        let clones: Vec<Node> = std::thread::scope(|s| {
+            let hs: Vec<_> = (0..4)
+                .map(|_| {
+                    s.spawn(|| {
+                        gate.fetch_add(1, Ordering::SeqCst);
+                        while gate.load(Ordering::SeqCst) < 4 {
+                            std::hint::spin_loop();
+                        }
+                        root.clone()
+                    })
+                })
+                .collect();
+            hs.into_iter().map(|h| h.join().unwrap()).collect()
+        });
+        let dropped = |id: usize| DROPS.lock().unwrap()[id];
+        let mut handles: Vec<Node> = vec![root];
+        handles.extend(clones);
+        let total = handles.len();
+        let mut k = 0usize;
+        let mut bad: Option<String> = None;
+        while let Some(h) = handles.pop() {
+            drop(h);
+            k += 1;
+            let d = dropped(before);
+            if k < total && d != 0 {
+                bad = Some(format!("round {}: after dropping {} of {} handles the tree was already torn down (its data was dropped {} time(s)): a clone went uncounted", r, k, total, d));
+                break;
+            }
+            if k == total && d != 1 {
+                bad = Some(format!("round {}: after the last of {} handles the tree's data was dropped {} time(s) (exactly once expected)", r, total, d));
+            }
+        }
+        for h in handles {
+            std::mem::forget(h);
+        }
+        done += 1;
+        if bad.is_some() {
+            first = bad;
+            break;
+        }
+    }
+    (first, vec![("free_clone_rounds".into(), done)])
+}
+
 /// Real threads race the *first* data operations on a fresh node (a new red tree per round).  Per round two threads are
 /// released together; the pair of operations rotates through (try_set, try_set), (try_set, set), (try_set, get),
 /// (set, get).  Checked per round against the optional-slot specification: of two conditional sets on the empty slot
@@ -1119,6 +1234,40 @@ pub fn run_conc(what: &str, seed: u64, tier: &str, outdir: &str) {
             let e = execute(tree, prog, *root_first, &mut |en, _| en[r2.below(en.len())]);
             handle(e, "random", &mut ops, &mut imp, &mut oracle, &mut case);
             total_execs += 1;
+        }
+    }
+    if what == "traverse" {
+        // free-running part: two threads make their first descent into the same fresh node at the same moment (a table of slots that
+        // is allocated on first use would be published in a window without any lock operation)
+        let rounds = if thorough { 20000 } else { 4000 };
+        let (viol, stats) = free_descent_stress(rounds);
+        for (k, v) in stats {
+            dist.insert(k, v);
+        }
+        if let Some(w) = viol {
+            ops.push(format!("case {}", case));
+            imp.push(format!("case {}", case));
+            ops.push(format!("note {}", hex(&format!("free-running first descents into a fresh node, {} rounds: {}", rounds, w))));
+            imp.push("ok".into());
+            oracle.push(format!("{}\t{}\tC05\t{}", case, ops.len() - 1, w));
+            case += 1;
+        }
+    }
+    if what == "lifecycle" {
+        // free-running part: what happens between two hook points -- a load followed by a store where a read-modify-write
+        // belongs -- is invisible to the scheduler; real threads clone the only handle through a shared borrow at the same moment
+        let rounds = if thorough { 20000 } else { 4000 };
+        let (viol, stats) = free_clone_stress(rounds);
+        for (k, v) in stats {
+            dist.insert(k, v);
+        }
+        if let Some(w) = viol {
+            ops.push(format!("case {}", case));
+            imp.push(format!("case {}", case));
+            ops.push(format!("note {}", hex(&format!("free-running clones of the only handle through a shared borrow, {} rounds: {}", rounds, w))));
+            imp.push("ok".into());
+            oracle.push(format!("{}\t{}\tC06\t{}", case, ops.len() - 1, w));
+            case += 1;
         }
     }
     if what == "data" {
